@@ -91,13 +91,22 @@ again to the value the stream delivered last (nor forbid one), so two implementa
 both satisfy every clause may differ in such reports — and, after them, in where `pend` / `end`
 answers fall.  The line compared by `check` is therefore `<exact answers> # <report key>`:
 
-* the report key (`r<w>=<digits>`: statuses delivered on stream `w`, immediate repetitions
-  removed) is computed by the harness from what it observed and by this driver from the model,
-  and is compared literally;
-* the exact part is compared literally too, unless the two sides differ *only* in stream
-  answers while every clause of the property holds on the observed answers, the answers that
-  do not come from a stream agree position by position and the report keys agree: then the
-  driver repeats the observed exact part (it stays in the evidence as the secondary token).
+* sequential cases (`seq`): the polls are fixed by the case, so the report key (`r<w>=<digits>`:
+  statuses delivered on stream `w`, immediate repetitions removed) is the same for every such
+  implementation.  It is computed by the harness from what it observed and by this driver from
+  the model and compared literally.  The exact part is compared literally too, unless the two
+  sides differ *only* in stream answers while every clause of the property holds on the observed
+  answers, the answers that do not come from a stream agree position by position and the report
+  keys agree: then the driver repeats the observed exact part (it stays in the evidence as the
+  secondary token).
+* parked-watcher cases (`park`): whether a task is still parked — and so which later updates
+  it gets to see — itself depends on such a repeated report, so the keys need not agree.  Here
+  the model is run *along* the observation (`acceptPark`): every observed answer must be the
+  model's, or differ from it by one repeated report (left out, or made where the model is
+  silent); who is parked follows the observation.  If the model accepts, the driver repeats
+  the observed line (exact part and key as recomputed from it); otherwise it prints its own.
+* concurrent cases (`conc`): the linearization search is run with the model (`Health.accept`)
+  and, if that finds none, with the same tolerant acceptor (`acceptMD`).
 
 The verdict is always computed from the exact observed answers. -/
 
@@ -317,16 +326,6 @@ def pollsOfPark (ios : List (Item × Out)) (late : List (Nat × Resp)) : List (N
       | .await w, .plain r => [(w, r)]
       | .op (.next w), .plain r => [(w, r)]
       | _, _ => []) ++ o.woken) ++ late
-
-/-- answers that do not come from a stream (and say nothing about who is parked), in place -/
-def maskedPark (ios : List (Item × Out)) : List (Option Resp) :=
-  ios.map (fun (it, o) => match it, o.ans with
-    | .await _, .plain .noWatcher => some .noWatcher
-    | .await _, _ => none
-    | .op (.next _), .plain .noWatcher => some .noWatcher
-    | .op (.next _), _ => none
-    | _, .plain r => some r
-    | _, _ => none)
 
 def itemIsWatch : Item → Bool
   | .op (.watch _) => true
